@@ -973,6 +973,22 @@ type aggregate struct {
 	aggregations []*gripql.Aggregate
 }
 
+// aggNumber returns the numeric reading of a field value for the histogram and
+// percentile aggregations: numbers and numeric text, as in has() conditions. A missing
+// or null field, booleans, other strings, lists and maps are not numbers, and neither
+// are NaN and the infinities ("inf" is valid input for strconv.ParseFloat).
+func aggNumber(val interface{}) (float64, bool) {
+	switch val.(type) {
+	case nil, bool:
+		return 0, false
+	}
+	fval, err := cast.ToFloat64E(val)
+	if err != nil || math.IsNaN(fval) || math.IsInf(fval, 0) {
+		return 0, false
+	}
+	return fval, true
+}
+
 func (agg *aggregate) Process(ctx context.Context, man gdbi.Manager, in gdbi.InPipe, out gdbi.OutPipe) context.Context {
 	aChans := make(map[string](chan gdbi.Traveler))
 	g, ctx := errgroup.WithContext(ctx)
@@ -1073,17 +1089,18 @@ func (agg *aggregate) Process(ctx context.Context, man gdbi.Manager, in gdbi.InP
 				var outErr error
 				for t := range aChans[a.Name] {
 					val := jsonpath.TravelerPathLookup(t, hagg.Field)
-					if val != nil {
-						fval, err := cast.ToFloat64E(val)
-						if err != nil {
-							outErr = fmt.Errorf("histogram aggregation: can't convert %v to float64", val)
-						}
+					// values that are not numbers are not part of the histogram
+					if fval, ok := aggNumber(val); ok {
 						fieldValues = append(fieldValues, fval)
 						if c > maxValues {
 							outErr = fmt.Errorf("histogram aggreagtion: collected more values (%v) than allowed (%v)", c, maxValues)
 						}
 						c++
 					}
+				}
+				if len(fieldValues) == 0 {
+					// no numeric value: no buckets
+					return outErr
 				}
 				sort.Float64s(fieldValues)
 				min := fieldValues[0]
@@ -1112,11 +1129,10 @@ func (agg *aggregate) Process(ctx context.Context, man gdbi.Manager, in gdbi.InP
 				td := tdigest.New()
 				for t := range aChans[a.Name] {
 					val := jsonpath.TravelerPathLookup(t, pagg.Field)
-					fval, err := cast.ToFloat64E(val)
-					if err != nil {
-						outErr = fmt.Errorf("percentile aggregation: can't convert %v to float64", val)
+					// rows without a numeric value do not take part in the distribution
+					if fval, ok := aggNumber(val); ok {
+						td.Add(fval, 1)
 					}
-					td.Add(fval, 1)
 				}
 
 				for _, p := range percents {
